@@ -658,7 +658,13 @@ def translate_parser(ev, repo, notes):
             else:
                 notes.append('unrecognised ' + where); ok = False
         elif pat == 'Token::Num(i)':
-            if nt != '{self.get_next_token()?;' + shapes['num'] + '}':
+            guard = ('ifmatches!(self.current_token,Token::Num(_)){returnErr(ParseError::UnableToParse('
+                     '"Anumbercannotdirectlyfollowanumber".to_string(),));}')
+            if nt == '{self.get_next_token()?;' + shapes['num'] + '}':
+                T['numnum'] = True        # a literal directly followed by a literal is an implicit product
+            elif nt == '{self.get_next_token()?;' + guard + shapes['num'] + '}':
+                T['numnum'] = False       # ... is rejected
+            else:
                 notes.append('unrecognised ' + where); ok = False
         elif pat in ('Token::Pi', 'Token::E'):
             k = 'pi' if pat == 'Token::Pi' else 'e'
@@ -937,7 +943,8 @@ def emit_ptab(ev, T, prec):
     s += '  pt_open := %s;\n' % kmatch([(k, 'Some (%s, %s)' % (c, w)) for k, c, w in T['open']], 'None')
     s += '  pt_neg := %s;\n  pt_pos := %s;\n  pt_ans := %s;\n' % tuple('true' if T[x] else 'false' for x in ('neg', 'pos', 'ans'))
     s += '  pt_neg_level := %d%%nat;\n  pt_impl_level := %d%%nat;\n' % (CAT_LEVEL[T['neg_level']], CAT_LEVEL[T['impl_level']])
-    s += '  pt_zero := %s |}.\n' % zero
+    s += '  pt_zero := %s;\n' % zero
+    s += '  pt_numnum := %s |}.\n' % ('true' if T.get('numnum', True) else 'false')
     s += 'Definition vocab_%s : list kind := %s.\n' % (ev, coq_list(
         [('K' + v) for v in variants if v in KINDS] + ['KSuperscript' for v in variants if v == 'Superscript'] +
         ['KNum' for v in variants if v == 'Num'] + ['KFunc F' + f for f in fns if f in FN]))
